@@ -705,4 +705,45 @@ example : ∃ s, EPC.Reachable s ∧ s.n = 3 ∧ s.pool = true ∧ s.dials = 1 :
 
 end EndpointPool
 
+/-! ## (d) `handlePkt`: one flow, one endpoint (`udp.go`; model `Route`) -/
+section HandlePkt
+open Route Keys
+
+/-- **Same flow, same endpoint — whatever the classification.**  Let `e` be the flow's endpoint
+(`Carries`: live, open, pooled under the flow's symmetric key or — unless the scope forces
+symmetry — its source-only key, dialled for this destination, no live sibling under the symmetric
+key).  Then every later packet of the same client source, destination and routing scope on a
+sniff-eligible port — plain, QUIC Initial, with or without a sniffer session, in any order — whose
+transport write succeeds is carried by `e`, and handling it dials nothing and changes nothing (so
+the statement holds for any number of packets).  This is what the two cross-probes and the two
+`foundUeKey` overrides of `handlePkt` are for. -/
+theorem same_flow_same_endpoint (s : Route.St) (p p' : Pkt) (e : Nat) (h : Carries s p e)
+    (hf : SameFlow p p') (hal : p'.d.allowsSniffing = true) (hport : p'.d.dst.port ≠ 0)
+    (ws : List Bool) (hw : ws.headD true = true) :
+    handle s p' ws = (s, some e) :=
+  handle_of_carries h hf hal hport ws hw
+
+/-- **The first packet of a flow dials exactly one endpoint, which becomes the flow's endpoint.** -/
+theorem first_packet_establishes_endpoint (s : Route.St) (p : Pkt)
+    (hwf : ∀ k c, s.pool k = some c → c < s.neps) (h : lookup s p = none)
+    (hal : p.d.allowsSniffing = true) (hport : p.d.dst.port ≠ 0) (ws : List Bool)
+    (hw : ws.headD true = true) :
+    (handle s p ws).2 = some s.neps ∧ (handle s p ws).1.dials = s.dials + 1 ∧
+    Carries (handle s p ws).1 p s.neps :=
+  handle_establishes hwf h hal hport ws hw
+
+/-- a plain first packet on :443 (source-only endpoint), then a QUIC Initial, then a packet with a
+sniffer session, then a plain one: one dial, all four carried by endpoint 0 -/
+def exFlow (qi hs : Bool) : Pkt := ⟨⟨⟨true, 1, 4000⟩, ⟨true, 9, 443⟩, hs, qi, true⟩, none, false⟩
+
+example :
+    let s1 := (handle Route.init (exFlow false false) []).1
+    let s2 := (handle s1 (exFlow true false) []).1
+    let s3 := (handle s2 (exFlow false true) []).1
+    ((handle Route.init (exFlow false false) []).2, (handle s1 (exFlow true false) []).2,
+     (handle s2 (exFlow false true) []).2, (handle s3 (exFlow false false) []).2, s3.dials)
+      = (some 0, some 0, some 0, some 0, 1) := by decide
+
+end HandlePkt
+
 end DaeVerif.C13.Props
